@@ -84,6 +84,66 @@ Theorem bundle_freq_partition : forall (w : Z) (l : list file),
   /\ adjacent_differ (bin_of w (origin_of l)) (bundle_f w l).
 Proof. intros w l. exact (group_runs_ok (bin_of w (origin_of l)) l). Qed.
 
+(* ---- C01 extension: stability of the sort.  fs is the STREAM of files in the order in which the directory walk
+   produces them (the harness observes that order with sort=False on the same FileSet and period; it is the sorted
+   listing of fsspec's glob, level by level).  Python's sorted() is stable, the model's insertion sort is too. *)
+
+(* the sort itself: the files of one coverage (a, b) keep their relative order *)
+Theorem sort_stable : forall (l : list file) (a b : Z),
+  filter (has_key a b) (sort_key l) = filter (has_key a b) l.
+Proof. intros l a b. exact (sort_key_stable a b l). Qed.
+
+(* find(): among the files with equal (t0, t1) the result keeps the order of the walk -- it lists exactly the
+   qualifying files of that coverage, in the order of fs *)
+Theorem find_sorted_stable : forall lay fs q,
+  no_gaps lay = true -> Forall well_placed fs -> Forall (short lay) fs -> Forall valid_file fs ->
+  wf_query q -> lookback_ok lay q ->
+  exists l, find_model lay fs q = Ok l /\
+    forall a b, filter (has_key a b) l = filter (fun f => selected q f && has_key a b f) fs.
+Proof. exact find_sorted_stable_lemma. Qed.
+
+(* ... and this needs none of the hypotheses: whatever the layout, the files and the period, a result of the search
+   algorithm (fixed or as-is) keeps the stream order of the files it found, coverage by coverage *)
+Theorem find_stable_any_input : forall local lay fs q l a b, find_gen local lay fs q = Ok l ->
+  filter (has_key a b) l = filter (fun f => found local lay q f && has_key a b f) fs.
+Proof. exact find_gen_stable. Qed.
+
+(* ordered by (t0, t1) + stable leaves no freedom: a sequence is the answer of find iff it is key-sorted and has,
+   for every coverage, the same sub-sequence as the stream of qualifying files (this is the law the harness
+   checks on the real output against the real unsorted stream) *)
+Theorem find_result_unique : forall fs q l,
+  l = find_spec fs q <->
+  Sorted (fun a b => key_le a b = true) l /\
+  forall a b, filter (has_key a b) l = filter (has_key a b) (filter (selected q) fs).
+Proof. exact find_spec_characterised. Qed.
+
+(* the bundles are unaffected: both bundlers only cut the sequence, the flattened bundles are still stable *)
+Theorem bundles_keep_stable_order : forall fs q a b (k : nat) (w : Z), (0 < k)%nat ->
+  filter (has_key a b) (concat (bundle_n k (find_spec fs q))) = filter (fun f => selected q f && has_key a b f) fs
+  /\ filter (has_key a b) (concat (bundle_f w (find_spec fs q))) = filter (fun f => selected q f && has_key a b f) fs.
+Proof. exact bundles_stable_lemma. Qed.
+
+(* ---- C01 extension: the time bins, explicitly.  bin number of a file = floor((t0 - o) / w), o = midnight of the
+   day of the first file of the sequence; bin k is the semi-open interval [o + k w, o + (k+1) w) *)
+Theorem bin_edges : forall (w o k : Z) (f : file), 0 < w ->
+  (bin_of w o f = k <-> bin_lo w o k <= t0 f < bin_lo w o (k + 1)).
+Proof. exact bin_of_edges. Qed.
+
+(* on a sequence ordered by (t0, t1) -- what find hands to the bundler -- every time bundle is a COMPLETE bin (all
+   files of the sequence whose start lies in [o + k w, o + (k+1) w), in sequence order), the bundles come in
+   strictly increasing bin order (so no bin is split over two bundles), the anchor o is midnight of the first
+   file's day and the first file lies in a bin k >= 0.  Together with bundle_freq_partition: the bundles are
+   exactly the non-empty bins, for ANY width w > 0 (dividing a day or not). *)
+Theorem bundle_freq_bins : forall (w : Z) (l : list file), 0 < w ->
+  Sorted (fun a b => key_le a b = true) l ->
+  (forall g x, In g (bundle_f w l) -> In x g ->
+     g = filter (fun f => bin_of w (origin_of l) f =? bin_of w (origin_of l) x) l
+     /\ origin_of l + bin_of w (origin_of l) x * w <= t0 x < origin_of l + (bin_of w (origin_of l) x + 1) * w)
+  /\ StronglySorted (fun g1 g2 => forall x y, In x g1 -> In y g2 -> bin_of w (origin_of l) x < bin_of w (origin_of l) y)
+                    (bundle_f w l)
+  /\ (forall x t, l = x :: t -> origin_of l = t0 x / us_day * us_day /\ 0 <= bin_of w (origin_of l) x).
+Proof. exact bundle_f_bins. Qed.
+
 (* a fileset whose path has no placeholder is one file with the coverage `time_coverage`: it is yielded iff
    that coverage meets the semi-open period; an empty period is a ValueError *)
 Theorem single_file_exact : forall (cov : Z * Z) (s e : Z), s < e ->
@@ -113,6 +173,21 @@ Example nonvacuous :
   sizes (bundle_f us_day (find_spec ex_files (everything []))) = [1; 2; 1].
 Proof. vm_compute. repeat split; reflexivity. Qed.
 
+(* non-vacuity of the extension: three files of one coverage walked in the order 10, 11, 12 around an earlier
+   file: the sort moves 13 to the front and keeps 10, 11, 12; the 7 h and 36 h bins (neither divides / both exceed
+   a day) of the four files of ex_files, anchored at 2018-01-01 00:00: [bin; left edge; right edge; files] *)
+Example nonvacuous_ext :
+  map fid (sort_key ex_ties) = [13; 10; 11; 12] /\
+  map fid (filter (has_key (ex_time 2018 3 5 12) (ex_time 2018 3 5 13)) (sort_key ex_ties)) = [10; 11; 12] /\
+  bundle_edges (7 * us_hour) (find_spec ex_files (everything [])) =
+    [ [1; ex_time 2018 1 1 7; ex_time 2018 1 1 14; 1];
+      [217; ex_time 2018 3 5 7; ex_time 2018 3 5 14; 1];
+      [219; ex_time 2018 3 5 21; ex_time 2018 3 6 4; 2] ] /\
+  bundle_edges (36 * us_hour) (find_spec ex_files (everything [])) =
+    [ [0; ex_time 2018 1 1 0; ex_time 2018 1 2 12; 1];
+      [42; ex_time 2018 3 5 0; ex_time 2018 3 6 12; 3] ].
+Proof. vm_compute. repeat split; reflexivity. Qed.
+
 Print Assumptions find_sound_complete.
 Print Assumptions find_each_once.
 Print Assumptions semi_open.
@@ -123,6 +198,13 @@ Print Assumptions len_agrees.
 Print Assumptions len_counts_unexcluded.
 Print Assumptions bundle_count_partition.
 Print Assumptions bundle_freq_partition.
+Print Assumptions sort_stable.
+Print Assumptions find_sorted_stable.
+Print Assumptions find_stable_any_input.
+Print Assumptions find_result_unique.
+Print Assumptions bundles_keep_stable_order.
+Print Assumptions bin_edges.
+Print Assumptions bundle_freq_bins.
 Print Assumptions single_file_exact.
 Print Assumptions single_file_empty_period.
 Print Assumptions find_asis_refuted.
